@@ -77,6 +77,14 @@ abbrev nested : List Stmt :=
    .nil]
 /-- `如何f？ （空）` — a method definition -/
 def fDecl : Stmt := .funcDecl 0 (some ⟨0, "f"⟩) 1 (some (.mk [] (some [.empty 0]) []))
+def excId : Ident := ⟨0, "异常"⟩
+/-- a body that raises 异常 and whose 拦截异常 block executes 继续循环 (then a nil statement) -/
+def handlerContinues : ExecBlock :=
+  .mk [] (some [.throw 0 (some excId) [.str 0 "m"]]) [(some excId, some [.continue 0, .nil])]
+/-- `（f）` as a statement -/
+def callF : Stmt := .expr (.call 0 (some ⟨0, "f"⟩) [] none)
+/-- `如何f？ 结束循环` — a method whose body is a bare 结束循环 -/
+def fBreaks : Stmt := .funcDecl 0 (some ⟨0, "f"⟩) 1 (some (.mk [] (some [.break 0]) []))
 /-- a machine with two variables: `d` = 假, `t` = 真 -/
 def vm1 : VM Int :=
   { heap := #[.bool false, .bool true], stack := [{ moduleId := 0, callType := 1 }], csModuleID := 0,
@@ -873,7 +881,14 @@ def execFinish (n : Nat) (blockModule : Int) (blockDepth : Nat) (catches : List 
         match r with
         | .ok (some v) => pure v
         | .ok none => newNull
-        | .err e => handleException n blockModule blockDepth catches e
+        | .err e => do
+          -- a loop signal that no loop of this body consumed becomes an exception of this body …
+          let e ← loopSignalToException e
+          -- … and so does one raised by the handler block itself
+          tryCatch (handleException n blockModule blockDepth catches e) fun r =>
+            match r with
+            | .err e2 => do let e2 ← loopSignalToException e2; throwE e2
+            | r => liftRes r
         | .panic => goPanic
         | .fuel => outOfFuel
         | .unmodelled => notModelled
@@ -1024,6 +1039,9 @@ inductive RetPath : Nat → Node → VM ν → Addr → VM ν → VM ν → Prop
         (newNull (leaveScope (scopeHandle (setLine ln s)) s5)).2
 
 namespace Toy
+/-- the machine after the definition `如何f？ 结束循环` has been executed in a fresh program -/
+def withF : VM Int := (evalStmt 4 fBreaks (programStart (initVM ()))).2
+
 theorem slot_set (s : VM ν) (h : (retSlot s).isSome = true) : retSlot s = some ((retSlot s).getD 0) := by
   cases hs : retSlot s <;> simp_all
 end Toy
